@@ -93,3 +93,36 @@ Definition set_response (c : cmd) (dst tn : N) : cmd :=
    NULL); VerifyData checks the length first, then `if (!data) return RDM_INVALID_RESPONSE` *)
 Definition verify_null (length : N) : N :=
   if length <? HEADER_SIZE then RDM_PACKET_TOO_SHORT else RDM_INVALID_RESPONSE.
+
+(* ---- RDMResponse::CombineResponses (ACK_OVERFLOW reassembly) *)
+Definition combined (r1 r2 : cmd) (cc : N) : cmd :=
+  {| c_dst := c_dst r1; c_src := c_src r1; c_tn := c_tn r1; c_port := RDM_ACK; c_mc := c_mc r2;
+     c_sub := c_sub r1; c_cc := cc; c_pid := c_pid r1; c_data := c_data r1 ++ c_data r2 |}.
+Definition combine_responses (r1 r2 : cmd) : option cmd :=
+  (* unsigned int combined_length = size1 + size2 *)
+  let n := u32 (len (c_data r1) + len (c_data r2)) in
+  if MAX_OVERFLOW_SIZE <? n then None
+  else if negb (c_src r1 =? c_src r2) then None
+  else if (c_cc r1 =? GET_COMMAND_RESPONSE) && (c_cc r2 =? GET_COMMAND_RESPONSE)
+       then Some (combined r1 r2 GET_COMMAND_RESPONSE)
+  else if (c_cc r1 =? SET_COMMAND_RESPONSE) && (c_cc r2 =? SET_COMMAND_RESPONSE)
+       then Some (combined r1 r2 SET_COMMAND_RESPONSE)
+  else None.
+
+(* ---- RDMFrame as a whole (data + the four timing words) and the RDMReply built from it *)
+Record frame := { f_data : list N; f_timing : N * N * N * N }.
+(* both constructors: data as mk_frame, memset(&timing, 0, sizeof(timing)) *)
+Definition new_frame (prepend : bool) (raw : list N) : frame :=
+  {| f_data := mk_frame prepend raw; f_timing := (0, 0, 0, 0) |}.
+Definition list_eqb (a b : list N) : bool :=
+  (len a =? len b) && forallb (fun p => fst p =? snd p) (combine a b).
+(* RDMFrame::operator== *)
+Definition frame_eq (a b : frame) : bool :=
+  let '(a1, a2, a3, a4) := f_timing a in
+  let '(b1, b2, b3, b4) := f_timing b in
+  list_eqb (f_data a) (f_data b) && (a1 =? b1) && (a2 =? b2) && (a3 =? b3) && (a4 =? b4).
+(* RDMReply::FromFrame: (status / response, frames) — the frame is stored as given *)
+Definition reply_from_frame (rq : option cmd) (fr : frame) : res * list frame :=
+  (from_frame rq (f_data fr), [fr]).
+(* RDMReply::DUBReply *)
+Definition dub_reply (fr : frame) : N * list frame := (RDM_DUB_RESPONSE, [fr]).
